@@ -2,6 +2,7 @@
 
 mod cat;
 mod gen;
+mod leaky;
 mod validate;
 
 use vengine::{PanicPolicy, Target};
@@ -9,6 +10,7 @@ use vengine::{PanicPolicy, Target};
 fn main() {
     let targets = [
         Target { name: "categorical", props: "C03 C05 C18 C19 (param selects the property)", policy: PanicPolicy::AllViolations, max_len: 2048, run: cat::categorical },
+        Target { name: "leaky", props: "C03 C05 C18 C19 (param selects the property)", policy: PanicPolicy::AllViolations, max_len: 2048, run: leaky::leaky },
     ];
     vengine::main(&targets);
 }
